@@ -704,7 +704,7 @@ pub fn gen_history(seed: u64, class: Class, max_steps: usize) -> (History, Swarm
                     let k = *g.r.pick(&[MetaKind::Generic, MetaKind::A, MetaKind::B]);
                     batch.push(Op::WriteMetadata {
                         layer,
-                        meta: gen_meta(&mut g.r, k),
+                        meta: if g.r.chance(1, 10) { MetaVal::Unwritable } else { gen_meta(&mut g.r, k) },
                         older_ref: g.r.chance(1, 3),
                     });
                 }
